@@ -63,7 +63,15 @@ def class_source(shape: dict) -> str:
         lines.append("")
         if shape["deco"]["sub"]:
             lines.append("@with_fields_set")
-        lines += ["@dataclass", f"class K({'Mixin, ' if mixin_fields else ''}Base):"] + ([fld(f) for f in sub_fields] or ["    pass"])
+        if shape.get("custominit"):
+            # hand-written __init__: own fields assigned first, then the tracked __init__ of the base
+            own = [f["name"] for f in sub_fields]
+            lines += ["@dataclass(init=False)", "class K(Base):"] + [f"    {n}: int = 0" for n in own]
+            order = [f["name"] for f in base_fields if f["kind"] != "noinit"] + own
+            lines += ["    def __init__(self, *args, **kwargs):", f"        kwargs.update(zip({tuple(order)!r}, args))"]
+            lines += [f"        self.{n} = kwargs.pop({n!r}, 0)" for n in own] + ["        super().__init__(**kwargs)"]
+        else:
+            lines += ["@dataclass", f"class K({'Mixin, ' if mixin_fields else ''}Base):"] + ([fld(f) for f in sub_fields] or ["    pass"])
     return "\n".join(lines) + "\n"
 
 
